@@ -427,6 +427,7 @@ type runState struct {
 	concurrent   bool
 	curs         map[int64]*opCtx // per goroutine (concurrent mode)
 	pendingNames map[godi.Scope]string
+	orphans      []string // context state of scope objects whose creation failed
 	creating     map[int64]string
 	instReg  map[int]string
 	waiters  map[godi.Scope]chan struct{}
@@ -1055,6 +1056,13 @@ func doOp(o *Op) {
 				ctx = nil
 			case "bg":
 				ctx = context.Background()
+			case "der":
+				// derived from the parent scope's own context, with a cancel function of its own
+				if ps, ok := tg.(godi.Scope); ok && ps.Context() != nil {
+					ctx, cancel = context.WithCancel(ps.Context())
+				} else {
+					ctx, cancel = context.WithCancel(context.Background())
+				}
 			case "val":
 				ctx, cancel = context.WithDeadline(context.WithValue(context.Background(), ctxMarkerKey{}, "m-"+o.Name), farDeadline(o.Name))
 			}
@@ -1067,6 +1075,12 @@ func doOp(o *Op) {
 				// a failed creation must not leave a scope behind under this name
 				R.mu.Lock()
 				if old, ok := R.scopes[o.Name]; ok {
+					// the scope object the initializers saw: its creation failed, its context must be cancelled
+					st := "live"
+					if c := old.Context(); c != nil && c.Err() != nil {
+						st = "canceled"
+					}
+					R.orphans = append(R.orphans, st)
 					delete(R.names, old)
 					delete(R.scopes, o.Name)
 				}
